@@ -6,6 +6,7 @@ Model: Core/AtomicCount.lean (one step = one atomic operation on the span's refe
 schedule); whether `try_close` decides on the value returned by its own fetch_sub is extracted from sharded.rs on every run.
 -/
 import TracingModel.Props.C05R
+import TracingModel.Props.C05M
 import TracingModel.Lemmas.AtomicCount
 import TracingModel.Lemmas.HandleRace
 
